@@ -157,15 +157,16 @@ class Opaque(Val):
 
 class Delta:
     """Conditional knowledge: interval refinements and facts that hold under a condition."""
-    __slots__ = ("iv", "facts", "gen")
+    __slots__ = ("iv", "facts", "gen", "ef")
 
-    def __init__(self, iv=None, facts=(), gen=None):
+    def __init__(self, iv=None, facts=(), gen=None, ef=None):
         self.iv = iv or {}
         self.facts = tuple(facts)
         self.gen = gen  # symbol -> generation at creation (None: unconditional on generations)
+        self.ef = ef or {}  # length symbol of a sequence -> element-fact templates known under the condition
 
     def __repr__(self):
-        return "Δ(%d iv, %d facts)" % (len(self.iv), len(self.facts))
+        return "Δ(%d iv, %d facts%s)" % (len(self.iv), len(self.facts), ", ∀" if self.ef else "")
 
 
 def val_syms(v, out):
